@@ -12,6 +12,15 @@ the argument merging of every filter's `__call__` (`vars(self).copy(); update(kw
 pre-fix `BandPassFilter` variant `vars(self).update(kwargs)` is kept as `callLeaky`), and the loop
 of `Compose.__call__`.
 
+Second part: the radial bins of `LinearWhiteningFilter._compute_spectrum` (`max_bins`, `n_bins`, the label
+`floor(r*(n_bins-1)+0.5)` of every voxel) and the `order=None` mask; the plane bookkeeping of
+`WedgeReconstructed.step_wedge` (padded plane shape, `centered` crop, `fmin` clip, `moveaxis`/`reshape`/`tile`) and
+the tail of `WedgeReconstructed.__call__` common to both wedge kinds (cut-off, threshold unless `weight_wedge`,
+shift, crop); the tilt-series `Wedge` (`weight_type` dispatch, stack shape, planes of untilted images for
+`weight_angle` / `weight_relion` / `weight_grigorieff`); the layout logic of `CTF.__call__` / `CTF.weight` and the
+non-astigmatic CTF as a function of the radial grid; the legacy `tme.preprocessor.Preprocessor` mask constructors;
+the keys every filter class hands back to `Compose`.
+
 Voxel values are computed over an explicit record of scalar operations `Ops α`, so that the same
 definitions run on `Float` (driver: compared with the real arrays) and are reasoned about for every
 `α` (theorems need only the sign laws of `SignLaws`, which IEEE floats and fields both satisfy).
@@ -32,7 +41,13 @@ structure Ops (α : Type) where
   neg : α → α
   sqrt : α → α
   exp : α → α
+  /-- `np.power` -/
+  pow : α → α → α
   le : α → α → Bool
+  /-- strict comparison (`ret > 0` in the wedge tail; differs from `!le` on NaN only) -/
+  lt : α → α → Bool
+  /-- rounding to single precision (a result written into a `float32` array); the identity for exact scalars -/
+  f32 : α → α
   /-- `floor` of a non-negative value (anything for negative ones) -/
   floorNat : α → Nat
   /-- `np.finfo(np.float32).eps` -/
@@ -52,13 +67,16 @@ def floatOps : Ops Float where
   neg := fun x => -x
   sqrt := Float.sqrt
   exp := Float.exp
+  pow := Float.pow
   le := fun a b => decide (a ≤ b)
+  lt := fun a b => decide (a < b)
+  f32 := fun x => x.toFloat32.toFloat
   floorNat := fun x => (Float.floor x).toUInt64.toNat
   eps := Float.ofScientific 11920928955078125 true 23   -- 2^-23
   gnorm := Float.sqrt (2.0 * Float.log 2.0)
 
 /-- exact instance used for the non-vacuity examples (kernel-evaluable).  `sqrt` is the identity
-on `{0, 1}` only and `exp x = 1/(1-x)` is a stand-in with `exp 0 = 1`, `0 < exp x ≤ 1` for `x ≤ 0`;
+on `{0, 1}` only, `pow x p = x` and `exp x = 1/(1-x)` are stand-ins with `exp 0 = 1`, `0 < exp x ≤ 1` for `x ≤ 0`;
 no theorem depends on them being the real functions. -/
 def ratOps : Ops Rat where
   zero := 0
@@ -72,7 +90,10 @@ def ratOps : Ops Rat where
   neg := fun x => -x
   sqrt := fun x => x
   exp := fun x => 1 / (1 - x)
+  pow := fun x _ => x
   le := fun a b => decide (a ≤ b)
+  lt := fun a b => decide (a < b)
+  f32 := fun x => x
   floorNat := fun x => x.floor.toNat
   eps := 1 / 8388608
   gnorm := 1
@@ -293,7 +314,244 @@ def contWedge (a : WArgs α) : Arr α :=
   let m := shiftFourier m axs o.zero
   if a.rrf then cropRealFourier m o.zero else m
 
+/-- centred integer grid vector of the tilt-plane position `idx` (`fftfreqn(tilt_shape, sampling_rate=None)`):
+the opening axis has extent 1, centre 0, coordinate 0 -/
+def tiltK (tshape : List Nat) (opening : Nat) (idx : List Nat) : List Int :=
+  let ks := List.zipWith (fun (n i : Nat) => (i : Int) - ((n / 2 : Nat) : Int)) tshape idx
+  ks.take opening ++ (0 : Int) :: ks.drop opening
+
+/-! ## radial masks over an arbitrary list of axes
+
+`radialMask` above fixes the grid of `fftfreqn(sampling_rate = 1/2)`; the wedge tail, the tilt
+planes of `Wedge` and the non-astigmatic `CTF` use `sampling_rate = 1` (`axesOne`). -/
+
+/-- centred grid → `val` of the radial frequency → `shift_fourier` → optional `crop_real_fourier` -/
+def radialMaskAx (shape : List Nat) (axs : List Ax) (crop : Bool) (val : α → α) : Arr α :=
+  let m := Arr.ofFn shape (fun idx => val (radial o axs idx))
+  let m := shiftFourier m axs o.zero
+  if crop then cropRealFourier m o.zero else m
+
+/-- a function of `fftfreqn(shape, sampling_rate=1, compute_euclidean_norm=True)`, DC first:
+what `CTF.weight` returns for one tilt at angle 0 without astigmatism / defocus gradient
+(`val` = the CTF as a function of the spatial frequency) -/
+def radialMaskOne (shape : List Nat) (rrf : Bool) (val : α → α) : Arr α :=
+  radialMaskAx o shape (axesOne shape) rrf val
+
+/-! ## whitening: radial bins of `LinearWhiteningFilter._compute_spectrum` and the `order=None` mask -/
+
+/-- `0.5` -/
+def half : α := o.div o.one (o.ofNat 2)
+
+/-- `np.floor(r * (n_bins - 1) + 0.5).astype(int)` -/
+def binOf (nb : Nat) (r : α) : Nat := o.floorNat (o.add (o.mul r (o.ofNat (nb - 1))) (half o))
+
+/-- label of the centred position `idx` of the half-spectrum shape (`bins[idx]`) -/
+def binCentred (rfshape : List Nat) (nb : Nat) (idx : List Nat) : Nat :=
+  binOf o nb (radial o (axesHalf rfshape true) idx)
+
+/-- the label array `bins` (centred on the leading axes, like the `fftshift`-ed spectrum it labels) -/
+def binsArr (rfshape : List Nat) (nb : Nat) : Arr Nat := Arr.ofFn rfshape (binCentred o rfshape nb)
+
+/-- label of the voxel `idx` of `data_rfft` itself (DC first): `fftshift` moves it to `srcIdx idx` -/
+def binOfVoxel (rfshape : List Nat) (nb : Nat) (idx : List Nat) : Nat :=
+  binCentred o rfshape nb (srcIdx (axesHalf rfshape true) idx)
+
+/-- `order=None`: `filter_mask[bins < size] = radial_averages[bins[bins < size]]`, zero elsewhere,
+then `ifftshift` of the leading axes -/
+def whitenNoneVal (spec : Array α) (nb : Nat) (r : α) : α :=
+  let b := binOf o nb r
+  if b < spec.size then spec.getD b o.zero else o.zero
+
+def whitenNone (spec : Array α) (rfshape : List Nat) (nb : Nat) : Arr α :=
+  radialMask o rfshape true false (whitenNoneVal o spec nb)
+
+/-! ## per-tilt (step) wedge: plane bookkeeping, tiling, and the common tail of `WedgeReconstructed.__call__` -/
+
+/-- shape of the plane that is rotated: `(shape[opening], shape[tilt] + (1 - shape[tilt] % 2))` (odd tilt extent) -/
+def planeShape (shape : List Nat) (opening tilt : Nat) : List Nat :=
+  [shape.getD opening 0, shape.getD tilt 0 + (1 - shape.getD tilt 0 % 2)]
+
+/-- row of the plane set to one before every rotation: `slice(x // 2, x // 2 + 1)` on axis 0 -/
+def planeRow (shape : List Nat) (opening : Nat) : Nat := shape.getD opening 0 / 2
+
+/-- `np.fmin(x, w, out=x)` on a `float32` array `x` with a double `w`: the minimum is taken in double
+precision and rounded back to single -/
+def fmin (x w : α) : α := o.f32 (if o.le x w then x else w)
+
+/-- `centered(wedge_volume, (shape[opening], shape[tilt]))` (start offsets from `_center_slice`), then
+`np.fmin(·, max(weights))` -/
+def cropPlane (plane : Arr α) (so st : Nat) (wmax : α) (d : α) : Arr α :=
+  let s0 := (plane.shape.getD 0 0 - so) / 2
+  let s1 := (plane.shape.getD 1 0 - st) / 2
+  Arr.ofFn [so, st] (fun ij => fmin o (plane.getD [ij.getD 0 0 + s0, ij.getD 1 0 + s1] d) wmax)
+
+/-- `np.moveaxis(a, 1, 0)` of a 2-D array -/
+def transpose2 (a : Arr α) (d : α) : Arr α :=
+  Arr.ofFn [a.shape.getD 1 0, a.shape.getD 0 0] (fun ij => a.getD [ij.getD 1 0, ij.getD 0 0] d)
+
+/-- `moveaxis` when `opening > tilt`, `reshape` to extent 1 on the other axes, `np.tile` -/
+def tilePlane (plane : Arr α) (shape : List Nat) (opening tilt : Nat) (d : α) : Arr α :=
+  let p := if tilt < opening then transpose2 plane d else plane
+  Arr.ofFn shape (fun idx => p.getD [idx.getD (min opening tilt) 0, idx.getD (max opening tilt) 0] d)
+
+/-- what `step_wedge` returns, given the accumulated rotated planes (before `centered`) -/
+def stepVolume (plane : Arr α) (shape : List Nat) (opening tilt : Nat) (wmax : α) : Arr α :=
+  tilePlane (cropPlane o plane (shape.getD opening 0) (shape.getD tilt 0) wmax o.zero) shape opening tilt o.zero
+
+structure WTail (α : Type) where
+  shape : List Nat
+  cutoff : Option α
+  weightWedge : Bool
+  rrf : Bool
+
+/-- centred value after `ret *= (freq <= cutoff)` and, unless `weight_wedge`, `(ret > 0) * 1.0` -/
+def tailCentred (vol : Arr α) (a : WTail α) (idx : List Nat) : α :=
+  let v := vol.getD idx o.zero
+  let v := match a.cutoff with
+    | none => v
+    | some c => o.mul v (if o.le (radial o (axesOne a.shape) idx) c then o.one else o.zero)
+  if a.weightWedge then v else (if o.lt o.zero v then o.one else o.zero)
+
+/-- tail of `WedgeReconstructed.__call__` applied to the centred volume `vol` of either wedge kind -/
+def wedgeTail (vol : Arr α) (a : WTail α) : Arr α :=
+  let axs := axesOne a.shape
+  let m := Arr.ofFn a.shape (tailCentred o vol a)
+  let m := shiftFourier m axs o.zero
+  if a.rrf then cropRealFourier m o.zero else m
+
+/-- `continuous_wedge` alone (centred, before the tail) -/
+def contVolume (a : WArgs α) : Arr α :=
+  Arr.ofFn a.shape (fun idx =>
+    let axs := axesOne a.shape
+    let kt := (axs.getD a.tilt ⟨1, false, 1⟩).k (idx.getD a.tilt 0)
+    let ko := (axs.getD a.opening ⟨1, false, 1⟩).k (idx.getD a.opening 0)
+    if wedgeVal o a.start a.stop a.big kt ko then o.one else o.zero)
+
+/-! ## tilt-series `Wedge`: weight dispatch, stack shape, the `weight_angle` planes -/
+
+/-- `compute_tilt_shape(shape, opening_axis, reduce_dim=True)` -/
+def tiltShape (shape : List Nat) (opening : Nat) : List Nat := shape.eraseIdx opening
+
+/-- plane `i` of `weight_angle` after the frequency cut-off of `Wedge.__call__`, for a tilt whose
+angle is exactly 0 (`frequency_grid_at_angle` is then the plain radial grid of the tilt shape):
+constant `w`, times `grid <= cutoff`; centred (the tilt stack is never shifted) -/
+def tiltPlaneZero (tshape : List Nat) (w : α) (cutoff : Option α) : Arr α :=
+  Arr.ofFn tshape (fun idx =>
+    match cutoff with
+    | none => w
+    | some c => o.mul w (if o.le (radial o (axesOne tshape) idx) c then o.one else o.zero))
+
+/-- plane of a tilt at angle 0 under any radial weighting `val`, after the cut-off of `Wedge.__call__` -/
+def tiltPlaneFn (tshape : List Nat) (val : α → α) (cutoff : Option α) : Arr α :=
+  Arr.ofFn tshape (fun idx =>
+    let r := radial o (axesOne tshape) idx
+    match cutoff with
+    | none => val r
+    | some c => o.mul (val r) (if o.le r c then o.one else o.zero))
+
+/-- `weight_relion`: `exp(sigma * f²) * cos(angle)` (`sigma = -2π²·sqrt(w·4/(8π²))²`, computed by the caller) -/
+def relionVal (sigma cosA : α) (f : α) : α := o.mul (o.exp (o.mul sigma (o.mul f f))) cosA
+
+/-- `weight_grigorieff`: `exp(w / (-2 * (amplitude * f**power + offset)))` -/
+def grigorieffVal (w amplitude power offset : α) (f : α) : α :=
+  o.exp (o.div w (o.mul (o.neg (o.ofNat 2)) (o.add (o.mul amplitude (o.pow f power)) offset)))
+
+/-! ### tilted images: `frequency_grid_at_angle(angle != 0)` -/
+
+/-- one component of `einsum("ij,j...->i...", rotation_matrix, index_grid)` -/
+def linForm (row : List α) (kvec : List Int) : α :=
+  (List.zipWith (fun r k => o.mul r (o.ofInt k)) row kvec).foldl o.add o.zero
+
+/-- rotate the centred integer grid vector, divide component `i` by `int(1 * shape[i])`, `np.linalg.norm(axis=0)` -/
+def tiltedRadial (R : List (List α)) (shape : List Nat) (kvec : List Int) : α :=
+  let w := List.zipWith (fun row n => o.div (linForm o row kvec) (o.ofNat n)) R shape
+  o.sqrt ((w.map (fun x => o.mul x x)).foldl o.add o.zero)
+
+/-- plane of a tilted image under the radial weighting `val`, after the cut-off of `Wedge.__call__`;
+`R` is the (single-precision) rotation matrix `euler_to_rotationmatrix` returned -/
+def tiltedPlane (R : List (List α)) (shape : List Nat) (opening : Nat) (val : α → α) (cutoff : Option α) : Arr α :=
+  Arr.ofFn (tiltShape shape opening) (fun idx =>
+    let r := tiltedRadial o R shape (tiltK (tiltShape shape opening) opening idx)
+    match cutoff with
+    | none => val r
+    | some c => o.mul (val r) (if o.le r c then o.one else o.zero))
+
+/-! ### reconstruction filters of the per-tilt wedge (`create_reconstruction_filter`) -/
+
+/-- the radial kinds (`ram-lak`: `val = id`; `shepp-logan`, `cosine`, `hamming`: `f ↦ f * g(f)`) as `step_wedge`
+uses them, `create_reconstruction_filter(plane.shape[::-1], ...).T`: entry `(i, j)` of the plane-shaped filter is
+`val` of the `sampling_rate = 1/2` radial grid of the reversed shape at `(j, i)`; centred -/
+def recFilterRadial (pshape : List Nat) (val : α → α) : Arr α :=
+  Arr.ofFn pshape (fun ij => val (radial o (axesHalf pshape.reverse false) ij.reverse))
+
+/-- `ramp`: `fmin(|k| / size * (min_increment * size), 1)` along the (padded) tilt extent `size = plane.shape[1]`,
+tiled along the opening extent; `scale = min_increment * size` is computed by the caller -/
+def recFilterRamp (pshape : List Nat) (scale : α) : Arr α :=
+  Arr.ofFn pshape (fun ij =>
+    let v := o.mul (radial o (axesOne [pshape.getD 1 0]) [ij.getD 1 0]) scale
+    if o.le v o.one then v else o.one)
+
 end
+
+/-- `weight_types` of `Wedge.__call__`: the constructor called, `none` = `ValueError` -/
+def wedgeWeightFunc : Option String → Option String
+  | none => some "weight_angle"
+  | some "angle" => some "weight_angle"
+  | some "relion" => some "weight_relion"
+  | some "grigorieff" => some "weight_grigorieff"
+  | some _ => none
+
+/-- `weight_type == "angle"` replaces the weights by `cos(radians(self.angles))` -/
+def wedgeWeightsReplaced (wt : Option String) : Bool := wt == some "angle"
+
+/-- shape of the stack every weighting returns: `(len(angles), *tilt_shape)` -/
+def wedgeStackShape (shape : List Nat) (opening nAngles : Nat) : List Nat := nAngles :: tiltShape shape opening
+
+/-! ## `CTF`: argument override and output layout -/
+
+structure CtfPlan where
+  /-- shape of the returned array -/
+  shape : List Nat
+  /-- `shift_fourier` applied (DC first) -/
+  shifted : Bool
+  /-- `crop_real_fourier` applied -/
+  cropped : Bool
+  /-- `opening_axis` in effect -/
+  opening : Option Nat
+deriving Repr, DecidableEq
+
+/-- `CTF.__call__` + the layout part of `CTF.weight`: `nAngles = len(func_args["angles"])`,
+`nSelfAngles = len(self.angles)`, `nDefocus = len(defocus_x)`.  When the call's angles do not match
+the defoci the constructor's angles are used, the axes are dropped and the full spectrum is forced.
+`np.squeeze` removes the stack axis of a single tilt (extents ≥ 2 assumed for the rest). -/
+def ctfPlan (shape : List Nat) (opening : Option Nat) (nAngles nSelfAngles nDefocus : Nat) (rrf : Bool) : CtfPlan :=
+  let mismatch := nAngles != nDefocus
+  let n := if mismatch then nSelfAngles else nAngles
+  let rrf := if mismatch then false else rrf
+  let opening := if mismatch then none else opening
+  let tshape := match opening with | none => shape | some oa => tiltShape shape oa
+  if n = 1 then ⟨if rrf then cropShape tshape else tshape, true, rrf, opening⟩
+  else ⟨n :: tshape, false, false, opening⟩
+
+/-! ## `tme.preprocessor.Preprocessor`: how the legacy mask constructors call the filter classes -/
+
+/-- `bandpass_mask`: `use_gaussian = (gaussian_sigma == 0.0)`, `return_real_fourier = omit_negative_frequencies` -/
+def ppBandpass (sigmaIsZero omitNeg : Bool) : Bool × Bool := (sigmaIsZero, omitNeg)
+
+/-- `step_wedge_mask` / `continuous_wedge_mask`: (frequency cut-off present (0.5), weight_wedge, return_real_fourier) -/
+def ppWedge (infinitePlane hasWeights omitNeg : Bool) : Bool × Bool × Bool := (!infinitePlane, hasWeights, omitNeg)
+
+/-! ## whitening: number of bins -/
+
+/-- `max(max(shape[:-1]) // 2 + 1, shape[-1])` for the half-spectrum shape (rank ≥ 2) -/
+def maxBins (rfshape : List Nat) : Nat :=
+  max (rfshape.dropLast.foldl max 0 / 2 + 1) (rfshape.getLastD 0)
+
+/-- `n_bins = max_bins if n_bins is None else int(min(n_bins, max_bins))` -/
+def nBins (rfshape : List Nat) (req : Option Nat) : Nat :=
+  match req with
+  | none => maxBins rfshape
+  | some n => min n (maxBins rfshape)
 
 /-! ## index negation -/
 
@@ -307,6 +565,11 @@ def flagsOk : List Ax → List Bool → Bool
   | [], [] => true
   | a :: as, f :: fs => !(a.rf && f) && flagsOk as fs
   | _, _ => false
+
+/-- no component is the Nyquist term of an even extent -/
+def offNyquist : List Nat → List Nat → Bool
+  | n :: ns, i :: is => decide (2 * i ≠ n) && offNyquist ns is
+  | _, _ => true
 
 /-! ## call-time argument merging (statelessness) -/
 
@@ -375,5 +638,84 @@ def compose {α : Type} (mul : α → α → α) (ts : List (Transform α)) (kw 
   match ts with
   | [] => none
   | t :: rest => some (composeLoop mul rest kw dkw (t kw dkw))
+
+
+/-! ## what every filter class hands back to `Compose` -/
+
+inductive Cls where
+  | bandpass | whitening | wedgeRec | wedge | ctf | reconstruct
+deriving Repr, DecidableEq
+
+/-- keys of the returned dict besides `data` (forwarded by `Compose` to every later filter through `kwargs.update(meta)`) -/
+def emits : Cls → List String
+  | .bandpass => ["sampling_rate", "is_multiplicative_filter"]
+  | .whitening => ["is_multiplicative_filter"]
+  | .wedgeRec => ["shape_is_real_fourier", "shape", "tilt_axis", "opening_axis", "is_multiplicative_filter", "angles"]
+  | .wedge => ["angles", "tilt_axis", "opening_axis", "sampling_rate", "is_multiplicative_filter"]
+  | .ctf => ["angles", "tilt_axis", "opening_axis", "is_multiplicative_filter"]
+  | .reconstruct => ["shape", "shape_is_real_fourier", "angles", "tilt_axis", "opening_axis", "is_multiplicative_filter"]
+
+/-- value of `is_multiplicative_filter` -/
+def multFlag : Cls → Bool
+  | .reconstruct => false
+  | _ => true
+
+/-- whether the class looks at `shape_is_real_fourier` at all -/
+def readsSirf : Cls → Bool
+  | .bandpass => true
+  | .whitening => true
+  | _ => false
+
+def allCls : List Cls := [.bandpass, .whitening, .wedgeRec, .wedge, .ctf, .reconstruct]
+
+
+
+/-- `upper_sampling = max(2 * sampling_rate)` of the Gaussian edge -/
+def gaussUpper {α : Type} (o : Ops α) (a : BPArgs α) : α := maxL o (a.srs.map (fun s => o.mul (o.ofNat 2) s)) o.zero
+
+
+/-- filter types accepted by `create_reconstruction_filter` after `str(filter_type).lower()`;
+`none` = `ValueError("Unsupported filter type")` -/
+def recFilterKind (s : String) : Option String :=
+  let t := s.toLower
+  if t ∈ ["ram-lak", "ramp-cont", "ramp", "shepp-logan", "cosine", "hamming"] then some t else none
+
+
+/-- shape `_compute_spectrum` builds its bins for: the shape of `data_rfft` without the batch axis -/
+def binShape (dataShape : List Nat) (batch : Option Nat) : List Nat :=
+  match batch with
+  | none => dataShape
+  | some b => dataShape.eraseIdx b
+
+/-- `WedgeReconstructed.__call__`: `if func_args.get("wedge_weights") is None and weight_wedge: weights = cos(angles)`.
+Nothing ever sets `wedge_weights`, so with `weight_wedge=True` the caller's `weights` are always replaced by the
+cosines of the tilt angles (`Preprocessor.step_wedge_mask` passes `weight_wedge = weights is not None`) -/
+def stepWeightsFromCos (weightWedge wedgeWeightsGiven : Bool) : Bool := weightWedge && !wedgeWeightsGiven
+
+
+/-! ## `Wedge.__call__`: which tilt angles are used where
+
+The merged arguments reach `weight_angle` only: `weight_relion` / `weight_grigorieff`, the cosine weights of
+`weight_type="angle"` and the cut-off loop read `self.angles` / `self.weights` / `self.opening_axis` /
+`self.tilt_axis`, while the returned dict reports the merged `angles`.  (`nSelf`: constructor angles = number of
+weights; `nCall`: angles in effect for the call, `= nSelf` unless overridden.) -/
+
+structure WedgeCall where
+  /-- `IndexError` -/
+  raises : Bool
+  /-- planes in the returned stack -/
+  nPlanes : Nat
+  /-- length of the reported `angles` -/
+  nReported : Nat
+  /-- plane `i` was multiplied by the cut-off mask -/
+  cut : List Bool
+deriving Repr, DecidableEq
+
+def wedgeCallPlan (func : String) (nSelf nCall : Nat) (cutoff : Bool) : WedgeCall :=
+  let nPlanes := if func == "weight_angle" then nCall else nSelf
+  -- `weight_angle` indexes the (constructor-length) weights with the call's tilt index; the cut-off loop indexes
+  -- the stack with the constructor's tilt index
+  let raises := (func == "weight_angle" && decide (nSelf < nCall)) || (cutoff && decide (nPlanes < nSelf))
+  ⟨raises, nPlanes, nCall, if raises then [] else (List.range nPlanes).map (fun i => cutoff && decide (i < nSelf))⟩
 
 end Pm.C12
